@@ -661,14 +661,13 @@ theorem parseQuery_printed (ps : List Printed) (hwf : ∀ p ∈ ps, p.WF) (text 
   parseQueryText_printed ps hwf text params tbl hfold
 
 open Render RenderQuery RenderPrinted in
-/-- The printed query itself, when it contains no carriage return (a CR inside a quoted name would be
-folded to LF by the reader: names with CR are not expressible, see C05 / C06). -/
+/-- **`ParseQuery(Statements.String())` = the statements.** The printed query itself (it contains no
+carriage return when the names are expressible: `RenderPrinted.noCR_printStatements`), for any number
+of well-formed statements of these families. -/
 theorem parseQuery_printed_text (ps : List Printed) (hwf : ∀ p ∈ ps, p.WF) (params : List (Str × BoundValue))
-    (tbl : List (Char × Char)) (hcr : ∀ c ∈ printStatements (ps.map Printed.stmt), c ≠ '\r') :
-    parseQueryText (printStatements (ps.map Printed.stmt)) params tbl = .ok (ps.map Printed.stmt) := by
-  refine parseQueryText_printed ps hwf _ params tbl ?_
-  have := foldCR_append_of_no_cr (printStatements (ps.map Printed.stmt)) [] hcr
-  simpa [foldCR] using this
+    (tbl : List (Char × Char)) :
+    parseQueryText (printStatements (ps.map Printed.stmt)) params tbl = .ok (ps.map Printed.stmt) :=
+  parseQueryText_printed_text ps hwf params tbl
 
 open Render RenderQuery RenderPrinted in
 /-- Non-vacuity: `SHOW DATABASES;⏎DROP DATABASE "a b";⏎DROP SHARD 7` is the printed form of the three
